@@ -19,7 +19,7 @@ RULE = ("case = one generated project with 2-6 source files x mode (check|edit);
         "sig_before/sig_after with signo 2 and 15 at operation k (quick: sampled, thorough: every k from the first source-dir "
         "operation on, plus start-up boundaries), plus signal+I/O-fault and two-signal plans. Non-trivial = signal delivered; "
         "distinct = (world, mode, k, action, signo).")
-PROBES = ["signal_in_startup", "signal_in_discovery", "signal_in_pass1", "signal_in_pass2", "signal_after_last_file",
+PROBES = ["check_twin_passes", "signal_in_startup", "signal_in_discovery", "signal_in_pass1", "signal_in_pass2", "signal_after_last_file",
           "signal_plus_fault", "two_signals"]
 ASSUMPTIONS = ["'has begun scanning the sources' = first operation on the source directory in the trace",
                "one more source file may be started after the signal (the stop flag is polled between files)"]
@@ -31,11 +31,13 @@ def n_cases(tier):
 
 
 def gen(rng):
-    wm = world.gen_world_model(rng, nfiles=rng.randrange(2, 7), sizes=["tiny", "tiny", "tiny", "k8", "k64"], p_have=0.35,
-                               max_stmts=3, min_missing=rng.choice([0, 1, 1, 2]))
+    check = rng.random() < 0.45
+    complete = check and rng.random() < 0.4   # every statement already has its reference: an uninterrupted --check passes
+    wm = world.gen_world_model(rng, nfiles=rng.randrange(2, 7), sizes=["tiny", "tiny", "tiny", "k8", "k64"],
+                               p_have=1.0 if complete else 0.35, id_hi=400, max_stmts=3,
+                               min_missing=0 if complete else rng.choice([0, 1, 1, 2]))
     knobs = {"threads": rng.randrange(1, 5), "config_arg": rng.choice(["rel", "abs"])}
     base = {"seed": rng.getrandbits(48) | 1, "perm": True, "faults": []}
-    check = rng.random() < 0.45
     return wm, knobs, base, check
 
 
@@ -164,6 +166,8 @@ def run_case(rng, idx, tier, ctx):
     ops = tres.ops
     K = len(ops)
     phm = scen.phases(ops)
+    if check and tres.status == 0:
+        ctx.probes["check_twin_passes"] += 1
     k0 = first_source_op(ops) or 1
     thorough = tier == "thorough"
     weights = dict(common.HOT)
